@@ -419,6 +419,7 @@ func (p *c07) Run(c *verifsim.Chooser, st *Stats, render bool) *Outcome {
 	var hist []map[string]interface{}
 
 	for i := 0; i < nruns; i++ {
+		stillAlive()
 		var r *c07Run
 		if mode != 0 {
 			r = runs[i]
